@@ -448,3 +448,23 @@ m('c15-r9-overshoot-jump-leaves-cursor', 'C15', 'C15-R9', 'taiko:overshoot', dif
 
 # seed C02-5 itself (the same slip was written independently for C01-5, C03-5 and C14-5): a position-keyed helper asked with a step count in nth()
 m('c15-r10-position-helper-asked-with-steps', 'C15', 'C15-R10', 'taiko:combo_after', diff='selftest/seed_diffs/C02-5.diff')
+# the precomputed total of agent refactor C02-r17 measuring the wrong collection (note_states instead of diff_objects: differs under passed_objects)
+m('c15-r6-ctor-total-wrong-collection', 'C15', 'C15-R6', 'mania:len-collection', (
+    'src/mania/difficulty/gradual.rs', "            diff_objects.len() + 1\n        };", "            note_states.len()\n        };"),
+  diff='selftest/refactor_diffs/C02-r17.diff')
+# the bounded inner step of agent refactor C03-r18 with next() advancing by two
+m('c15-r1-inner-step-next-skips', 'C15', 'C15-R1', 'TaikoGradualPerformance::next', (
+    'src/taiko/performance/gradual.rs', "self.nth_within_bounds(state, 0)", "self.nth_within_bounds(state, 1)"),
+  diff='selftest/refactor_diffs/C03-r18.diff')
+# the merged NaN guard clause of agent refactor C06-r16 without its is_nan() half: a NaN beat length reaches TimingPoint::new's clamp
+m('c06-r2-merged-guard-without-nan-test', 'C06', 'C06-R2', 'nan:TimingPoint::new', (
+    'src/model/beatmap/decode.rs', "if unlikely(timing_change && beat_len.is_nan()) {", "if unlikely(timing_change && beat_len.is_infinite()) {"),
+  diff='selftest/refactor_diffs/C06-r16.diff')
+# the stepwise TryFrom of agent refactor C07-r16 rescaling the accuracy it copies
+m('c07-r5-stepwise-tryfrom-rescales-acc', 'C07', 'C07-R5', 'taiko:acc', (
+    'src/taiko/performance/mod.rs', "taiko.acc = acc;", "taiko.acc = acc.map(|a| a * 100.0);"),
+  diff='selftest/refactor_diffs/C07-r16.diff')
+# the per-mode closure dispatch of agent refactor C17-r16 with od() handing the taiko payload back untouched
+m('c18-r2-closure-dispatch-drops-od', 'C18', 'C18-R2', 'od:Taiko', (
+    'src/any/performance/mod.rs', "            |t| t.od(od, with_mods),", "            |t| t,"),
+  diff='selftest/refactor_diffs/C17-r16.diff')
